@@ -12,6 +12,7 @@ import (
 	"time"
 
 	"github.com/elastos/Elastos.ELA/common"
+	"github.com/elastos/Elastos.ELA/core/checkpoint"
 	"github.com/elastos/Elastos.ELA/core/types"
 	"github.com/elastos/Elastos.ELA/core/types/interfaces"
 	"github.com/elastos/Elastos.ELA/mempool"
@@ -27,6 +28,7 @@ type Step struct {
 	Ref   int        `json:"ref,omitempty"` // deliver: which held/known block
 	Muts  []MutSpec  `json:"muts,omitempty"` // blockmut: the single mutations to show the node first
 	Secs  int64      `json:"secs,omitempty"`
+	Task  int        `json:"task,omitempty"` // race mode: the logical thread that executes the step (-1: sequential prologue)
 }
 
 type Engine struct{}
@@ -69,6 +71,7 @@ type sim struct {
 	frozen2      int // a second frozen address with its own start height (-1: none)
 	frozenHeight2 uint32
 	arbKeys     []arbiterKey // the simulated environment's cross-chain arbiters (C33; nil: none)
+	snaps       []checkpoint.ICheckPoint // race mode: deep copies waiting for the saver thread
 	ccFreeze    uint32 // cross-chain UTXO freeze height (0: policy disabled)
 	ccRestrict   uint32 // cross-chain UTXO restriction height
 }
@@ -117,6 +120,10 @@ func execute(c *core.Ctx) {
 	p := c.Plan
 	if p.Meta["mode"] == "store" {
 		executeStore(c)
+		return
+	}
+	if p.Meta["mode"] == "race" {
+		executeRace(c)
 		return
 	}
 	steps := make([]Step, len(p.Steps))
